@@ -89,7 +89,7 @@ def build_driver():
     return os.path.join(WORK, "target-driver", "debug", "pdl_driver")
 
 
-def run_lines(binary, reqs, tag, timeout=600, args=()):
+def run_lines(binary, reqs, tag, timeout=600, args=(), encode=None, use_stdin=False, env=None):
     """Run a line-oriented harness with crash recovery: a process death loses one request,
     which is reported as abnormal."""
     os.makedirs(os.path.join(WORK, "io"), exist_ok=True)
@@ -101,10 +101,18 @@ def run_lines(binary, reqs, tag, timeout=600, args=()):
         inp = os.path.join(WORK, "io", "%s.%d.%d.in" % (tag, os.getpid(), round_))
         with open(inp, "w") as f:
             for r in pending:
-                f.write(json.dumps(r) + "\n")
+                f.write((encode(r) if encode else json.dumps(r)) + "\n")
         try:
-            p = subprocess.run([binary] + list(args) + [inp], stdout=subprocess.PIPE, stderr=subprocess.PIPE, text=True,
-                               timeout=timeout)
+            e2 = dict(os.environ)
+            if env:
+                e2.update(env)
+            if use_stdin:
+                with open(inp) as fin:
+                    p = subprocess.run([binary] + list(args), stdin=fin, stdout=subprocess.PIPE, stderr=subprocess.PIPE,
+                                       text=True, timeout=timeout, env=e2)
+            else:
+                p = subprocess.run([binary] + list(args) + [inp], stdout=subprocess.PIPE, stderr=subprocess.PIPE,
+                                   text=True, timeout=timeout, env=e2)
             out, rc, err = p.stdout, p.returncode, p.stderr
         except subprocess.TimeoutExpired as e:
             out, rc, err = (e.stdout or b"").decode() if isinstance(e.stdout, bytes) else (e.stdout or ""), -9, "timeout"
@@ -126,8 +134,8 @@ def run_lines(binary, reqs, tag, timeout=600, args=()):
         # the first unanswered request killed the process
         dead = rest[0]
         if dead["rid"] not in results:
-            results[dead["rid"]] = {"rid": dead["rid"], "r": {"abnormal": "abort", "rc": rc, "stderr": err[-500:]},
-                                    "abnormal": "abort", "rc": rc, "stderr": err[-500:]}
+            results[dead["rid"]] = {"rid": dead["rid"], "r": {"abnormal": "abort", "rc": rc, "stderr": err[-1500:]},
+                                    "abnormal": "abort", "rc": rc, "stderr": err[-1500:]}
         pending = rest[1:]
         if round_ > 200:
             raise ToolError("too many harness crashes")
@@ -1455,7 +1463,190 @@ def check_c13(ctx):
     return rep.finish()
 
 
+# ------------------------------------------------------------------------------ C14 C++ backend
+import cxxgen  # noqa: E402
+
+CXXFLAGS_ASAN = ["-std=c++17", "-O1", "-g0", "-fsanitize=address,undefined", "-fno-sanitize-recover=all",
+                 "-fno-omit-frame-pointer", "-w"]
+CXXFLAGS_NDEBUG = ["-std=c++17", "-O2", "-g0", "-DNDEBUG", "-w"]
+
+
+def build_cxx(units, info, flavour="asan"):
+    """write gen.h + main.cc per unit and compile them in parallel; returns {unit name: (binary, usable)}"""
+    import concurrent.futures
+    root = os.path.join(WORK, "cxxgen", flavour)
+    os.makedirs(root, exist_ok=True)
+    rt = os.path.join(REPO, "pdl-compiler", "scripts")
+    rth = hashlib.sha256(open(os.path.join(rt, "packet_runtime.h"), "rb").read()).hexdigest()
+    flags = CXXFLAGS_ASAN if flavour == "asan" else CXXFLAGS_NDEBUG
+    jobs = []
+    out = {}
+    for u in units:
+        g = u.resp.get("cxx", {})
+        inf = info.get(u.name)
+        if u.status != "accepted" or "ok" not in g or not inf or not inf.get("cxx"):
+            continue
+        schemas = {t["id"]: t for t in inf["types"]}
+        try:
+            src, usable = cxxgen.generate(u, schemas, g["ok"])
+        except Exception as e:  # noqa
+            u.cxx = "harness_generation_failed: %r" % e
+            continue
+        d = os.path.join(root, u.mod)
+        os.makedirs(d, exist_ok=True)
+        ch = write_if_changed(os.path.join(d, "gen.h"), g["ok"])
+        ch |= write_if_changed(os.path.join(d, "main.cc"), src)
+        ch |= write_if_changed(os.path.join(d, "rt.hash"), rth + " ".join(flags))
+        binp = os.path.join(d, "drv")
+        jobs.append((u, d, binp, ch or not os.path.exists(binp), usable, schemas))
+
+    def comp(j):
+        u, d, binp, need, usable, schemas = j
+        if need:
+            p = subprocess.run(["g++"] + flags + ["-I", rt, "-I", d, os.path.join(d, "main.cc"), "-o", binp],
+                               stdout=subprocess.PIPE, stderr=subprocess.STDOUT, text=True)
+            if p.returncode != 0:
+                if os.path.exists(binp):
+                    os.unlink(binp)
+                return (u, None, p.stdout[-3000:], usable, schemas)
+        return (u, binp, "", usable, schemas)
+
+    t = time.time()
+    with concurrent.futures.ThreadPoolExecutor(NCPU) as ex:
+        for (u, binp, msg, usable, schemas) in ex.map(comp, jobs):
+            if binp:
+                u.cxx = "ok"
+                out[u.name] = (binp, usable, schemas)
+            else:
+                u.cxx = "compile_failed: " + msg
+    log("c++ drivers (%s): %d built in %.1fs" % (flavour, len(out), time.time() - t))
+    return out
+
+
+def run_cxx(bins, reqs, tag="cxx"):
+    import concurrent.futures
+    by = {}
+    for r in reqs:
+        by.setdefault(r["bin"], []).append(r)
+    res = {}
+    env = {"ASAN_OPTIONS": "detect_leaks=0:abort_on_error=0:exitcode=99", "UBSAN_OPTIONS": "halt_on_error=1:print_stacktrace=0"}
+    items = list(by.items())
+    with concurrent.futures.ThreadPoolExecutor(NCPU) as ex:
+        for r in ex.map(lambda a: run_lines(a[1][0], a[1][1], "%s%d" % (tag, a[0]), encode=lambda q: q["line"],
+                                            use_stdin=True, env=env, timeout=300), enumerate(items)):
+            res.update(r)
+    return res
+
+
+def check_c14(ctx):
+    rep = Report("C14", ctx.tier, ctx.seed)
+    units = make_units(kit.build(ctx.tier))
+    compile_units(ctx.driver(), units, ["analyze", "cxx"])
+    jobs = []
+    for k, u in enumerate(units):
+        jobs.append(dict(d=k + 1, type="", anc="", mode="info", n=0))
+        if u.status != "accepted" or "ok" not in u.resp.get("cxx", {}):
+            continue
+        for t in u.types():
+            jobs.append(dict(d=k + 1, type=t, anc="", mode="enc", n=0))
+            jobs.append(dict(d=k + 1, type=t, anc="", mode="dec", n=0))
+    vecs, info = run_jobs(ctx, units, jobs, rep)
+    flavours = ["asan"] + (["ndebug"] if ctx.tier == "thorough" else [])
+    for flavour in flavours:
+        bins = build_cxx(units, info, flavour)
+        usable = [v for v in vecs if v["unit"].name in bins and not (v["k"] == "enc" and v["faults"])]
+        reqs = []
+        for v in usable:
+            binp, us, schemas = bins[v["unit"].name]
+            t = v["type"]
+            rid = len(reqs)
+            if v["k"] == "dec":
+                if not us.get(t, {}).get("parse"):
+                    continue
+                reqs.append(dict(rid=rid, bin=binp, v=v, line="%d P %s %s" % (rid, t, hexs(v["bytes"]) or "-")))
+            else:
+                params = us.get(t, {}).get("build")
+                if params is None:
+                    continue
+                val = node_to_native(v["val"])
+                try:
+                    if params == "struct":
+                        flat, field, one = cxxgen.flatten(val, schemas[t], schemas)
+                        one("struct", t, val)
+                    else:
+                        flat = cxxgen.flatten_args(val, params, schemas[t], schemas)
+                except KeyError as e:
+                    rep.notes["unflattenable"] = rep.notes.get("unflattenable", 0) + 1
+                    continue
+                reqs.append(dict(rid=rid, bin=binp, v=v, line="%d B %s %s" % (rid, t, " ".join(map(str, flat)))))
+        t_run = time.time()
+        obs = run_cxx(bins, reqs, tag="cxx" + flavour)
+        log("c++ run: %d requests in %.1fs" % (len(reqs), time.time() - t_run))
+        for q in reqs:
+            v = q["v"]
+            u = v["unit"]
+            o = obs.get(q["rid"], {})
+            r = o.get("r", {})
+            rep.validated()
+            kind = None
+            detail = r
+            is_struct = (u.decl(v["type"]) or {}).get("kind") == "struct"
+            if "abnormal" in o or _abn(r):
+                err = (o.get("stderr") or r.get("stderr") or "")
+                m = ""
+                for ln in err.splitlines():
+                    if "runtime error" in ln or "ERROR: AddressSanitizer" in ln or "Assertion" in ln or "terminate called" in ln \
+                            or "what():" in ln:
+                        m = ln.strip()
+                        break
+                import re
+                m = re.sub(r"0x[0-9a-f]+", "0xN", m)
+                m = re.sub(r"[0-9]+", "N", m)
+                m = re.sub(r"^.*?(runtime error|ERROR: AddressSanitizer|Assertion|terminate called|what\(\))", r"\1", m)[:90]
+                kind = "abnormal:" + (m or "exit")
+                detail = {"stderr": err[-800:], "rc": o.get("rc")}
+            elif v["k"] == "dec":
+                F = set(v["faults"]) if is_struct else set(v["full"])
+                if "Unsupported" in F | set(v["faults"]):
+                    continue
+                if not F:
+                    if not r.get("valid"):
+                        kind = "rejects_valid"
+                    elif is_struct and r.get("rest") != v["rest"]:
+                        kind = "struct_rest"
+                    elif not subset_equal(node_to_native(v["val"]), r.get("val")):
+                        kind = "getter_values"
+                        detail = {"expected": node_to_native(v["val"]), "got": r.get("val")}
+                else:
+                    if r.get("valid"):
+                        kind = "accepts:" + "+".join(sorted(F))
+            else:
+                if r.get("bytes") != hexs(v["bytes"]):
+                    kind = "serialize_bytes"
+                    detail = {"expected": hexs(v["bytes"]), "got": r.get("bytes")}
+                elif r.get("size") != len(v["bytes"]):
+                    kind = "get_size"
+            if kind:
+                fp = "C14|cxx-%s|%s|%s|%s|%s" % (flavour, u.name, v["type"], kind, ":".join(str(x) for x in (v.get("label") or [])))
+                rp = {"backend": "cxx", "flavour": flavour, "desc": u.desc, "pdl": u.src, "type": v["type"], "op": v["k"],
+                      "label": v.get("label"), "observed": detail,
+                      "stimulus": {"bytes": hexs(v["bytes"])} if v["k"] == "dec" else {"value": node_to_native(v["val"])}}
+                if v["k"] == "dec":
+                    rp["expected"] = {"faults": v["faults"], "full": v["full"], "value": node_to_native(v["val"]) if not v["faults"] else None}
+                rep.violation(fp, rp)
+            elif rep.coverage["traces_validated_against_impl"] % 997 == 1:
+                rep.sample({"desc": u.name, "type": v["type"], "op": v["k"], "label": v.get("label"),
+                            "stimulus": hexs(v["bytes"]) if v["k"] == "dec" else node_to_native(v["val"])})
+        rep.notes["drivers_" + flavour] = len(bins)
+        failed = [u.name + ": " + u.cxx[:200] for u in units if getattr(u, "cxx", "") and u.cxx != "ok"]
+        rep.notes["driver_build_failures_" + flavour] = failed[:10]
+    rep.assumptions += ["CxxApi binding: a packet view is valid iff DecodeFull accepts the bytes as that type; a struct's static Parse consumes a prefix",
+                        "getters are called only when IsValid() (API contract)"]
+    return rep.finish()
+
+
 CHECKS = {p: (lambda ctx, p=p: check_rust_codec(p, ctx)) for p in CODEC_MODES}
+CHECKS["C14"] = check_c14
 CHECKS["C13"] = check_c13
 CHECKS["C17"] = check_c17
 CHECKS["C15"] = check_c15
